@@ -53,7 +53,7 @@ def run(tier="quick", seed=0):
             roots = [head]
             touched = []
             inp = dict(name=name, base=base, temp=temp, clean=clean, filed=filed, extensioned=ext)
-            cls_ = "dotdot-in-name-or-base" if (".." in name or ".." in base) else ""
+            cls_ = ""      # (the `..` class of the recorded finding went with the repair d1f8040: such names are rejected with FilerError now)
             inp["witness_class"] = cls_
 
             def chk(kind, path):
